@@ -220,6 +220,32 @@ def _visited(work):  # tiny helper to keep the loop above simple
     return set(work)
 
 
+def _unpacked(fn, target, value, name: str, depth: int = 2):
+    """the element bound to `name` by `a, b = <value>` when the value is a tuple / list display of the same length (or a
+    local whose single definition is one); None when it cannot be told"""
+    if not isinstance(target, (ast.Tuple, ast.List)) or any(isinstance(e, ast.Starred) for e in target.elts):
+        return None
+    v = value
+    if isinstance(v, ast.Name) and depth > 0:
+        cands = []
+        for x in walk_no_nested(fn):
+            if isinstance(x, ast.Assign) and len(x.targets) == 1 and isinstance(x.targets[0], ast.Name) and x.targets[0].id == v.id:
+                cands.append(x.value)
+            elif isinstance(x, (ast.Assign, ast.AugAssign, ast.AnnAssign, ast.For, ast.NamedExpr)) and any(isinstance(y, ast.Name) and y.id == v.id and isinstance(y.ctx, ast.Store) for y in ast.walk(x.targets[0] if isinstance(x, ast.Assign) else x.target)):
+                cands.append(None)
+        if len(cands) == 1 and cands[0] is not None:
+            v = cands[0]
+    if isinstance(v, (ast.Tuple, ast.List)) and len(v.elts) == len(target.elts) and not any(isinstance(e, ast.Starred) for e in v.elts):
+        for t, e in zip(target.elts, v.elts):
+            if isinstance(t, ast.Name) and t.id == name:
+                return e
+            if isinstance(t, (ast.Tuple, ast.List)):
+                r = _unpacked(fn, t, e, name, depth)
+                if r is not None:
+                    return r
+    return None
+
+
 def single_def_value(fn: ast.FunctionDef, name: str) -> ast.AST | None:
     """If `name` is assigned exactly once in fn by a plain `name = expr`, return expr."""
     vals = []
@@ -229,7 +255,7 @@ def single_def_value(fn: ast.FunctionDef, name: str) -> ast.AST | None:
                 if isinstance(t, ast.Name) and t.id == name:
                     vals.append(x.value)
                 elif name in _targets(t):
-                    vals.append(None)
+                    vals.append(_unpacked(fn, t, x.value, name))
         elif isinstance(x, (ast.AugAssign, ast.AnnAssign)) and name in _targets(x.target):
             vals.append(getattr(x, "value", None) if isinstance(x, ast.AnnAssign) else None)
         elif isinstance(x, (ast.For, ast.comprehension)) and name in _targets(x.target):
@@ -251,7 +277,7 @@ def all_def_values(fn: ast.FunctionDef, name: str) -> list[ast.AST | None]:
                 if isinstance(t, ast.Name) and t.id == name:
                     vals.append(x.value)
                 elif name in _targets(t):
-                    vals.append(None)
+                    vals.append(_unpacked(fn, t, x.value, name))
         elif isinstance(x, ast.AugAssign) and name in _targets(x.target):
             vals.append(None)
         elif isinstance(x, ast.AnnAssign) and name in _targets(x.target) and x.value is not None:
